@@ -109,9 +109,16 @@ def cname(e: BaseException) -> str:
     return "Other"
 
 
+SENDX = {9001: E1, 9002: E2, 9003: BE}     # values that *are* exception instances, sent with send()
+
+
 def val(v):
     if v is None:
         return 0
+    if isinstance(v, BaseException):
+        for code, cls in SENDX.items():
+            if type(v) is cls:
+                return code
     return v if isinstance(v, int) else "?" + type(v).__name__
 
 
@@ -168,6 +175,8 @@ def sexp(stmts) -> str:
             out.append(f"({k} {s[1]})")
         elif k in ("bare", "reraise"):
             out.append(f"({k})")
+        elif k == "raisefrom":
+            out.append(f"(raisefrom {s[1]} {s[2]})")
         elif k == "cset":
             out.append(f"(cset {s[1]} {s[2]})")
         elif k in ("cget", "creset"):
@@ -228,6 +237,9 @@ class _Src:
                 self.lines.append(f"{pad}return {s[1] if s[1] else None}")
             elif k == "raise":
                 self.lines.append(f"{pad}raise EXC['{s[1]}']()")
+            elif k == "raisefrom":
+                c = "None" if s[2] == "None" else f"EXC['{s[2]}']()"
+                self.lines.append(f"{pad}raise EXC['{s[1]}']() from {c}")
             elif k == "cset":
                 self.lines.append(f"{pad}TOKS.append(({s[1]}, CV[{s[1]}].set({s[2]})))")
             elif k == "cget":
@@ -253,6 +265,7 @@ class Env:
         self.TOKS = []
         self.loop = loop
         self.F = _Futs(loop, auto_after)
+        self.F.pure = (sum(map(ord, sexp(stmts))) % 3 == 0)
         toks = self.TOKS
 
         def creset(i):
@@ -290,9 +303,11 @@ class _Futs(dict):
         self.loop = loop
         self.auto_after = auto_after
         self.order = []
+        self.pure = False
 
     def __missing__(self, k):
-        f = self.loop.create_future()
+        # odd programs use the pure-Python Future class (not an instance of the C `asyncio.Future`)
+        f = asyncio.futures._PyFuture(loop=self.loop) if self.pure else self.loop.create_future()
         f._verif_k = k
         self[k] = f
         self.order.append(f)
@@ -360,8 +375,12 @@ def gen_prog(rng, depth=0, budget=None, allow_fut=False, catches=None, p_await=0
             out.append(("ret", rng.choice([0, 5, 7, 11])))
             break
         elif r < p_await + 0.70:
-            out.append(("raise", rng.choice(["E1", "E2", "BE", "Cancelled", "E1", "E2", "InvalidState", "RT.other",
-                                             "StopIteration", "GenExit", "OOBData", "FE"])))
+            exc = rng.choice(["E1", "E2", "BE", "Cancelled", "E1", "E2", "InvalidState", "RT.other",
+                              "StopIteration", "GenExit", "OOBData", "FE"])
+            if rng.random() < 0.3:
+                out.append(("raisefrom", exc, rng.choice(["E1", "E2", "BE", "None"])))
+            else:
+                out.append(("raise", exc))
             break
         elif ctxvars and r < p_await + 0.85:
             q = rng.random()
@@ -457,7 +476,7 @@ def make_layer(name, x, keep, info):
         cs = CoroStart(x)
         keep.append(cs)
         sr = cs.start_result
-        if sr and sr[1] is None and isinstance(sr[0], asyncio.Future):
+        if sr and sr[1] is None and asyncio.isfuture(sr[0]):
             f = sr[0]
             prev = bool(f._asyncio_future_blocking)
             info.setdefault("held_flags", []).append(prev)
@@ -468,9 +487,13 @@ def make_layer(name, x, keep, info):
                 got = probe.send(None)
                 if got is not f:
                     info["held_probe_fail"] = "second awaiter got %r" % (got,)
+                elif not f._asyncio_future_blocking:
+                    info["held_probe_fail"] = "second awaiter received the future without its blocking flag"
             except BaseException as e:  # noqa: BLE001
                 info["held_probe_fail"] = "second awaiter raised %s: %s" % (type(e).__name__, e)
-            f._asyncio_future_blocking = prev
+            # ... and, like the Task running that second awaiter, clears the flag on receipt.  When the
+            # wrapper finally passes the future on it must be armed again (checked in `drive`).
+            f._asyncio_future_blocking = False
             keep.append(probe)
         if name == "cs_await":
             return cs.__await__()
@@ -521,7 +544,7 @@ def drive(obj, drives, info):
                 break
             k, a = d.split(":")
             if k == "s":
-                r = obj.send(None if a == "0" else int(a))
+                r = obj.send(None if a == "0" else (SENDX[int(a)]() if int(a) in SENDX else int(a)))
             else:
                 r = obj.throw(EXC[a]())
         except StopIteration as e:
@@ -534,7 +557,7 @@ def drive(obj, drives, info):
             outs.append("y:bare")
         elif isinstance(r, tuple) and r[0] == "tok":
             outs.append(f"y:tok:{r[1]}")
-        elif isinstance(r, asyncio.Future):
+        elif asyncio.isfuture(r):
             k = getattr(r, "_verif_k", -1)
             outs.append(f"y:fut:{k}")
             info.setdefault("out_flags", []).append(bool(r._asyncio_future_blocking))
@@ -559,7 +582,7 @@ def run_real(layers, stmts, drives, loop, resolve_held=False):
     if resolve_held:
         for x in keep:
             sr = getattr(x, "start_result", None) if isinstance(x, CoroStart) else None
-            if sr and sr[1] is None and isinstance(sr[0], asyncio.Future) and not sr[0].done():
+            if sr and sr[1] is None and asyncio.isfuture(sr[0]) and not sr[0].done():
                 sr[0].set_result(100 + getattr(sr[0], "_verif_k", -1))
                 info["resolved_while_held"] = True
     outs = drive(obj, drives, info)
